@@ -1,24 +1,24 @@
 #!/bin/bash
 # seeded.sh <Cxx> [features] : confirm a seeded change (from /tmp/wt/<Cxx>/OUT) in a scratch worktree, then run the check against it
-P=$1; FEAT=$2
-SRC=/tmp/wt/$P/OUT
-W=/tmp/sv/$P
+D=$1; FEAT=$2; P=${D:0:3}; WT=${WTROOT:-/tmp/wt}
+SRC=$WT/$D/OUT
+W=/tmp/sv/$D
 [ -f $SRC/patch.diff ] || { echo "no patch for $P"; exit 9; }
 rm -rf $W; git -C /repo worktree prune; mkdir -p /tmp/sv
 git -C /repo worktree add --detach $W HEAD >/dev/null 2>&1 || { echo "worktree failed"; exit 9; }
 cd $W
 FA=""; [ -n "$FEAT" ] && FA="--features $FEAT"
 cp $SRC/seeded_demo.rs tests/seeded_demo.rs
-cargo test --offline $FA --test seeded_demo >/tmp/sv/$P.without.log 2>&1; WITHOUT=$?
+cargo test --offline $FA --test seeded_demo >/tmp/sv/$D.without.log 2>&1; WITHOUT=$?
 git apply $SRC/patch.diff || { echo "patch does not apply"; exit 9; }
-mv tests/seeded_demo.rs /tmp/sv/$P.demo.rs
-cargo test --offline >/tmp/sv/$P.suite.log 2>&1; SUITE=$?
-NPASS=$(grep "test result" /tmp/sv/$P.suite.log | awk '{p+=$4; f+=$6} END {print p" passed "f" failed"}')
-cp /tmp/sv/$P.demo.rs tests/seeded_demo.rs
-cargo test --offline $FA --test seeded_demo >/tmp/sv/$P.with.log 2>&1; WITH=$?
-echo "$P: demo without change rc=$WITHOUT (want 0); existing suite with change rc=$SUITE ($NPASS); demo with change rc=$WITH (want != 0)"
+mv tests/seeded_demo.rs /tmp/sv/$D.demo.rs
+cargo test --offline >/tmp/sv/$D.suite.log 2>&1; SUITE=$?
+NPASS=$(grep "test result" /tmp/sv/$D.suite.log | awk '{p+=$4; f+=$6} END {print p" passed "f" failed"}')
+cp /tmp/sv/$D.demo.rs tests/seeded_demo.rs
+cargo test --offline $FA --test seeded_demo >/tmp/sv/$D.with.log 2>&1; WITH=$?
+echo "$D: demo without change rc=$WITHOUT (want 0); existing suite with change rc=$SUITE ($NPASS); demo with change rc=$WITH (want != 0)"
 cd /; git -C /repo worktree remove --force $W
 # now the checks
-cd /repo && git apply $SRC/patch.diff && cd /verif && ./check $P > /tmp/sv/$P.check.log 2>&1; RC=$?
+cd /repo && git apply $SRC/patch.diff && cd /verif && ./check $P > /tmp/sv/$D.check.log 2>&1; RC=$?
 git -C /repo checkout -- .
-echo "$P: check rc=$RC"; grep -E "^VIOLATION|^failed obligation|^UNDECIDED|^OK|failing input" /tmp/sv/$P.check.log | cut -c1-260 | head -6
+echo "$D: check rc=$RC"; grep -E "^VIOLATION|^failed obligation|^UNDECIDED|^OK|failing input" /tmp/sv/$D.check.log | cut -c1-260 | head -6
